@@ -31,7 +31,8 @@ Lemma trial_args_ok d level order head :
 Proof.
   intros Hne Hlen. apply chunk_args_ok_spec. split; [exact Hne|]. right.
   split; [|exact Hlen]. unfold trial_cfg; cbn [w_level].
-  change Consts.MAX_AUTO_DELTA_COMPRESSION_LEVEL with 6. lia.
+  assert (Hmax : Consts.MAX_AUTO_DELTA_COMPRESSION_LEVEL <= Consts.MAX_COMPRESSION_LEVEL) by (apply N.leb_le; vm_compute; reflexivity).
+  change Consts.MAX_COMPRESSION_LEVEL with 12 in Hmax. lia.
 Qed.
 
 (* a trial is Ok or Panic, never Err *)
